@@ -336,8 +336,10 @@ def run(ctx):
     for i in range(ctx.n(500, 4000)):
         prof = ["flags", "qasm", "handles", "tracked", "measure"][i % 5]
         ir, src = qlang.generate(ctx.rng("q-%d" % i), prof)
-        jobs.append(("quantum:%s:%d" % (prof, i), src, dict(kind="quantum", index=i, profile=prof),
-                     {"BLOCH_VERIF_SEED": str(ctx.seed * 7 + i)}))
+        case = dict(kind="quantum", index=i, profile=prof)
+        if prof in ("tracked", "measure") and i % 2:
+            case["shots"] = 4      # the CLI's multi-shot loop and its aggregate table are code an accepted program runs
+        jobs.append(("quantum:%s:%d" % (prof, i), src, case, {"BLOCH_VERIF_SEED": str(ctx.seed * 7 + i)}))
     try:
         from . import c08
         for i in range(ctx.n(300, 3000)):
@@ -370,7 +372,8 @@ def run(ctx):
         if case["kind"] == "edited":
             r, _, _, _ = core.run_bloch(binary, src, env=env, timeout=20, cpu_s=20, retry_timeout=False)
         else:
-            r, _, _, _ = core.run_bloch(binary, src, env=env, timeout=60)
+            args = ["--shots=%d" % case["shots"]] if case.get("shots") else []
+            r, _, _, _ = core.run_bloch(binary, src, args=args, env=env, timeout=60)
         return job, r
 
     for (tag, src, case, env), r in core.pmap(one, jobs):
